@@ -15,6 +15,8 @@ type Dec struct {
 	C      int  // chosen alternative
 	Forced bool // the alternative was implied by the path condition (no assertion needed on replay)
 	Enum   bool // enumerated (condition-free) choice: schedule, map order, select
+	Val    uint64 // concretisation decisions: the value chosen for the term
+	IsVal  bool
 }
 
 // Input is a symbolic input created by a verif* intrinsic (or nondet model).
